@@ -59,6 +59,9 @@ def plan(tier, seed):
     items = [{"kind": "pairs", "exhaustive": "every (domain form, first target, second target) over 10 domain forms x 16 x 16 hosts"}]
     items.append({"kind": "aba", "exhaustive": "value A, value B, value A again for one name x 2 domain forms x 3 value pairs x entry created by this / another response x 2 x 2 targets"})
     items.append({"kind": "attrnames", "exhaustive": "a cookie named like an attribute (domain, Domain, path, version) on a later Set-Cookie line x 2 values x 2 domain forms x 4 second targets"})
+    for part in range(12):
+        items.append({"kind": "concurrent", "step": 3 if tier == "quick" else 1, "part": part, "parts": 12,
+                      "exhaustive": "two threads connecting at once to hosts under different cookie domains: thread 1 pre-empted at every traced line of its connect()"})
     n = 8000 if tier == "quick" else 600000
     per = 250 if tier == "quick" else 2500
     for s in range(0, n, per):
@@ -87,6 +90,28 @@ def expand(item, seed):
                         yield {"steps": [st(v1), st(v2), st(v1), {"host": last, "set": [], "domain": None, "cookie": "me=1"}], "seed": 1}
                         yield {"steps": [{"host": h, "set": [["a", "1"]], "domain": d, "cookie": None}, st(v1), st(v2), st(v1),
                                          {"host": last, "set": [], "domain": None, "cookie": None}], "seed": 1}
+    elif item["kind"] == "concurrent":
+        idx = [0]
+
+        def mine():
+            idx[0] += 1
+            return idx[0] % item.get("parts", 1) == item.get("part", 0)
+
+        base = {"concurrent": {"before": [{"host": "example.test", "domain": "example.test", "set": [["a", "1"], ["sid", "xyz"]]},
+                                          {"host": "other.test", "domain": ".OTHER.test", "set": [["b", "2"]]}],
+                               "targets": ["www.example.test", "sub.other.test"]}, "seed": 5}
+        for pol in ({"kind": "coop", "p_call": 0.3}, {"kind": "prob", "p_line": 1 / 8, "p_call": 0.3}, {"kind": "pct", "d": 2, "len": 1500}):
+            for sd in range(6):
+                if mine():
+                    yield dict(base, policy=pol, seed=50 + sd)
+                if mine():
+                    yield dict(base, policy=pol, seed=60 + sd, concurrent=dict(base["concurrent"], targets=["example.test", "other.test", "notexample.test"]))
+        for tid in (1, 2):
+            ref = run(dict(base, policy={"kind": "at", "tid": tid, "k": -1, "rand_block": False}))
+            n = int((ref.info.get("lines") or {}).get(tid, 0))
+            for kk in range(1, n + 1):
+                if (item["step"] == 1 or kk % item["step"] == 0) and mine():
+                    yield dict(base, policy={"kind": "at", "tid": tid, "k": kk, "rand_block": False})
     elif item["kind"] == "attrnames":
         for nm in RESERVED:
             for val in ("other.test", "2"):
@@ -140,7 +165,127 @@ def gen(rng):
     return {"steps": steps, "seed": rng.randrange(1 << 30)}
 
 
+def _run_concurrent(sc, choices):
+    """The jar is one object for the whole process: several threads opening connections at the same time each still get
+    exactly their own host's cookies.  History: a few connections (one after the other) whose responses store cookies;
+    then one thread per target connects - these responses set no cookie, so the jar is only read while the threads run."""
+    from .. import seams
+    res = Result()
+    try:
+        pre = list(sc["concurrent"]["before"])
+        targets = list(sc["concurrent"]["targets"])
+        if not 1 <= len(pre) <= 4 or not 2 <= len(targets) <= 3:
+            raise InvalidScenario("concurrent")
+        owner = {}
+        for st in pre:
+            if st["host"] not in HOSTS or st["domain"] not in DOMAINS or not canon(st["domain"]).strip("."):
+                raise InvalidScenario("before")
+            for x in st["set"]:
+                if len(x) != 2 or x[0] not in NAMES or x[1] not in VALUES[:5]:
+                    raise InvalidScenario("before set")
+                if owner.setdefault(x[0], canon(st["domain"])) != canon(st["domain"]):
+                    raise InvalidScenario("name owned by two domains")
+        if any(t not in HOSTS for t in targets) or len(set(t.lower() for t in targets)) != len(targets):
+            raise InvalidScenario("targets")
+        policy = dict(sc.get("policy") or {"kind": "prob", "p_line": 1 / 8, "p_call": 0.3})
+    except (KeyError, TypeError, ValueError) as e:
+        raise InvalidScenario(str(e))
+    w = World(seed=int(sc.get("seed", 1)), step_cap=900_000, policy=policy, choices=choices)
+    seen = {}  # lower-case host -> list of peers
+    phase = [0]
+    pre_idx = [0]
+
+    def fac_for(hl):
+        def fac(conn):
+            extra = []
+            if phase[0] == 0:
+                st = pre[pre_idx[0]]
+                extra = [("Set-Cookie", f"{n}={v}; Domain={st['domain']}; Path=/") for n, v in st["set"]]
+            p_ = WSPeer(w, {"response": {"mode": "std", "extra": extra}})
+            seen.setdefault(hl, []).append((phase[0], p_))
+            return p_
+        return fac
+
+    for i, h in enumerate(HOSTS):
+        ad = f"10.6.0.{i + 1}"
+        if h.lower() not in w.net.hosts:
+            w.net.add_host(h.lower(), [(_rs.AF_INET, ad)])
+            w.net.listen(ad, 80, fac_for(h.lower()))
+    outcomes = [None] * len(targets)
+    jar = {}
+    with w:
+        ws = w.ws
+        for i, st in enumerate(pre):
+            pre_idx[0] = i
+            try:
+                c = ws.create_connection(f"ws://{st['host']}/", timeout=3)
+                c.close(timeout=1)
+            except SimAbort:
+                raise
+            except BaseException as e:  # noqa
+                res.violate("connect_failed_against_correct_server", "history", f"earlier connection {i}: {exc_name(e)}: {str(e)[:100]}")
+            jar.setdefault(canon(st["domain"]), {}).update({n: v for n, v in st["set"]})
+        phase[0] = 1
+
+        def work(i):
+            try:
+                c = ws.create_connection(f"ws://{targets[i]}/", timeout=3)
+                outcomes[i] = "ok"
+                try:
+                    c.close(timeout=1)
+                except SimAbort:
+                    raise
+                except BaseException:  # noqa
+                    pass
+            except SimAbort:
+                outcomes[i] = "abort"
+                raise
+            except BaseException as e:  # noqa
+                outcomes[i] = exc_name(e) + ": " + str(e)[:120]
+
+        ths = [seams.SimThread(target=work, args=(i,), name=f"connector{i}") for i in range(len(targets))]
+        try:
+            if policy.get("kind") in ("prob", "pct", "at"):
+                w.k.start_tracing()
+            for t in ths:
+                t.start()
+            for t in ths:
+                t.join()
+        except SimAbort:
+            pass
+        finally:
+            if w.k.tracing:
+                w.k.stop_tracing()
+            res.info["lines"] = {t.tid: t.lines for t in w.k.threads}
+    res.absorb(w)
+    for i, host in enumerate([] if res.violations else targets):
+        if outcomes[i] != "ok":
+            res.violate("connect_failed_against_correct_server", "concurrent_connections", f"thread {i} to {host}: {outcomes[i]} ({w.k.abort_reason})")
+            break
+        ps = [p_ for ph, p_ in seen.get(host.lower(), []) if ph == 1]
+        applicable = {}
+        for d, cookies in jar.items():
+            if covers(d, host):
+                applicable.update(cookies)
+        want = "; ".join(f"{k}={applicable[k]}" for k in sorted(applicable)) or None
+        got = R.header_values(ps[0].request, "Cookie") if ps and ps[0].request else ["<no request>"]
+        gotv = got[0] if got else None
+        if len(got) > 1 or gotv != want:
+            leaked = [k for k in _names(gotv) if k not in applicable]
+            missing = [k for k in applicable if k not in _names(gotv)]
+            clause = "cookie_sent_outside_its_domain" if leaked else ("cookie_not_replayed_inside_its_domain" if missing else "cookie_header_differs")
+            res.violate(clause, "concurrent_connections", f"thread {i} to {host} (others at the same time to {[t for t in targets if t != host]}): "
+                        f"Cookie header {got}, expected {want!r}; jar {jar}")
+            break
+    res.sig = repr(("concurrent", [st["domain"] for st in pre], targets, res.sched))
+    res.nontrivial = True
+    res.probes["concurrent_connections"] = 1
+    return res
+
+
 def run(sc, choices=None):
+    if sc.get("concurrent"):
+        return _run_concurrent(sc, choices)
     res = Result()
     try:
         steps = list(sc["steps"])
@@ -328,4 +473,6 @@ def _why_missing(prev_steps, host, missing):
 
 
 def sample_view(sc, r):
+    if sc.get("concurrent"):
+        return {"earlier_connections": sc["concurrent"]["before"], "threads_connecting_at_once_to": sc["concurrent"]["targets"], "policy": sc.get("policy")}
     return {"steps": sc["steps"]}
